@@ -16,12 +16,12 @@ from vlib import core
 from codec import persist_schemas as ps
 from codec.schemas import Refused
 
-BINS = ["h_persist"]
+BINS = ["h_persist", "h_scorer", "h_lockstep"]
 LEVEL = "proof"
 MANIFEST = {
     "category": "proof",
     "text": "Coq theorems for the persistence TLV layer (stream and length-prefixed suffix round trip for any well-formed schema, unknown odd skipped, unknown even/out-of-order/truncated rejected) instantiated on the TLV numbers/kinds of every persistence macro invocation regenerated from lightning/src each run (framing only: field value codecs are not modelled); whole-object round trips (monitors, monitor updates, network graph, channel manager) are judged on real nodes at every intermediate step of seeded scenarios.",
-    "note": "Partial: object-level equality and the sequential (non-TLV) parts of the big hand-written impls are validated on the implementation, not proved; scorer and output sweeper are not exercised; write/read TLV list pairing of hand-written impls is not checked.",
+    "note": "Partial: object-level and behavioural equivalence (lock-step continuation of re-read ChannelManager/ChannelMonitors, ProbabilisticScorer, OutputSweeper) are validated on the implementation, not proved; write/read TLV list pairing of hand-written impls is not checked.",
     "technique": "machine-checked proof in Coq over regenerated schemas + implementation-side round-trip judge on real nodes",
 }
 
@@ -87,6 +87,46 @@ def run(ctx):
             ctx.write_evidence(LEVEL)
             return
     ctx.coverage["observations_corrupted_read_aborts"] = aborts
+    # ---- scorer + sweeper (behavioural lock-step with re-read copies) and manager/monitor lock-step
+    extra_fails = []
+    nsc, nops, nls = (6, 100, 40) if ctx.tier == "quick" else (60, 250, 800)
+    for binname, args, kinds in (("h_scorer", [str(nsc), str(ctx.seed), str(nops)], ("scorer", "sweeper")),
+                                 ("h_lockstep", [str(nls), str(ctx.seed)], ("lockstep",))):
+        rc2, lines2 = ctx.run_bin(binname, "", args=args, timeout=1500)
+        got = []
+        for l in lines2:
+            if l.startswith("R {") and l.rstrip().endswith("}"):
+                try:
+                    got.append(json.loads(l[2:]))
+                except ValueError:
+                    pass
+        want = (2 * nsc) if binname == "h_scorer" else nls
+        if rc2 != 0 or len(got) != want:
+            ctx.violation("%s crashed or produced too few scenario results" % binname, {"broken": "judge:" + binname, "rc": rc2, "n": len(got), "want": want,
+                          "tail": [l for l in lines2 if "panicked" in l or "memory allocation" in l][-3:], "replay_cmd": "%s %s" % (ctx.bin_path(binname), " ".join(args))}, True)
+            ctx.write_evidence(LEVEL)
+            return
+        for k in kinds:
+            sub = [g for g in got if g.get("kind") == k]
+            agg = {}
+            for g in sub:
+                for kk, vv in g.items():
+                    if isinstance(vv, int) and not isinstance(vv, bool) and kk not in ("scenario", "seed"):
+                        agg[kk] = agg.get(kk, 0) + vv
+            agg["scenarios"] = len(sub)
+            ctx.coverage["%s_totals" % k] = agg
+        if binname == "h_lockstep":
+            modes = {}
+            for g in got:
+                d = g.get("desc", "")
+                m = d.split("|")[1].split()[0] + " " + d.split("|")[1].split()[1] if "|" in d else "?"
+                modes[m] = modes.get(m, 0) + 1
+            ctx.coverage["lockstep_cut_situations"] = modes
+        for g in got:
+            if not g.get("ok"):
+                g["bin"] = binname
+                g["args"] = args
+                extra_fails.append(g)
     fails = [r for r in recs if not r.get("ok")]
     tot = {}
     for r in recs:
@@ -107,9 +147,11 @@ def run(ctx):
     ctx.coverage["observations_corrupted_reads"] = [n for r in recs for n in r.get("corrupt_notes", [])][:8]
     ctx.coverage["persistence_schemas"] = (meta or {}).get("n_schemas")
     ctx.coverage["persistence_tlv_entries"] = (meta or {}).get("n_entries")
-    ctx.coverage["evaluations"] = tot.get("mon", 0) + tot.get("upd", 0) + tot.get("mgr", 0) + tot.get("graph", 0) + tot.get("mutated", 0)
-    ctx.coverage["distinct_nontrivial"] = tot.get("mon", 0) + tot.get("upd", 0) + tot.get("mgr", 0) + tot.get("graph", 0)
-    ctx.coverage["rule"] = "one object round trip per (scenario, step, node, object) where the object is a ChannelMonitor / new ChannelMonitorUpdate / ChannelManager / NetworkGraph in the state reached at that step; corrupted reads counted separately"
+    sc_t, sw_t, ls_t = ctx.coverage.get("scorer_totals", {}), ctx.coverage.get("sweeper_totals", {}), ctx.coverage.get("lockstep_totals", {})
+    beh = sc_t.get("roundtrips", 0) + sc_t.get("shadow_checks", 0) + sw_t.get("roundtrips", 0) + sw_t.get("shadow_checks", 0) + ls_t.get("scenarios", 0)
+    ctx.coverage["evaluations"] = tot.get("mon", 0) + tot.get("upd", 0) + tot.get("mgr", 0) + tot.get("graph", 0) + tot.get("mutated", 0) + beh
+    ctx.coverage["distinct_nontrivial"] = tot.get("mon", 0) + tot.get("upd", 0) + tot.get("mgr", 0) + tot.get("graph", 0) + sc_t.get("roundtrips", 0) + sw_t.get("roundtrips", 0) + ls_t.get("scenarios", 0)
+    ctx.coverage["rule"] = "one object round trip per (scenario, step, node, object) where the object is a ChannelMonitor / new ChannelMonitorUpdate / ChannelManager / NetworkGraph in the state reached at that step, plus one per scorer op / sweeper block, plus one per lock-step scenario (a whole suffix compared); shadow comparisons and corrupted reads counted separately"
     ctx.samples += [{k: r.get(k) for k in ("seed", "ops", "steps", "mon", "upd", "mgr", "ok")} for r in recs[:3]]
     broken = []
     if gen_err:
@@ -117,7 +159,15 @@ def run(ctx):
     elif not proved:
         broken.append({"obligation": "Coq proof of Props/C12.v", "detail": getattr(ctx, "proof_failure", {})})
     replay_cmd = "%s 1 <seed> %d   (with the scenario seed printed in the result line; h_persist <n> <seed> <steps>)" % (ctx.bin_path("h_persist"), steps)
-    if fails:
+    if extra_fails and not fails:
+        f = extra_fails[0]
+        why = (f.get("fails") or ["?"])[0]
+        ctx.violation("C12 fails on the implementation (%s): %s" % (f.get("kind"), why),
+                      {"broken": broken or "implementation judge", "failing_input": {"kind": f.get("kind"), "scenario_seed": f.get("seed"), "scenario_index": f.get("scenario"), "desc": f.get("desc"), "fails": f.get("fails")},
+                       "n_failing_scenarios": len(extra_fails), "more": [(g.get("kind"), (g.get("fails") or ["?"])[0][:300]) for g in extra_fails[1:4]],
+                       "replay_cmd": "%s %s   (scenario index %s)" % (ctx.bin_path(f["bin"]), " ".join(f["args"]), f.get("scenario"))}, True,
+                      key="persist:%s:%s" % (f.get("kind"), why.split(":")[0][:60]))
+    elif fails:
         f = fails[0]
         ctx.violation("C12 fails on the implementation: " + (f.get("fails") or ["?"])[0],
                       {"broken": broken or "implementation judge", "failing_input": {"arg_seed": f.get("arg_seed"), "steps": steps, "scenario_seed": f.get("seed"), "ops": f.get("ops"), "fails": f.get("fails")},
